@@ -1,0 +1,42 @@
+//go:build verif
+
+package rpc
+
+// verifDirty returns a bitmask of what a recycled client call state still carries (0 = clean).
+func (s *channelState) verifDirty() int64 {
+	var m int64
+	if s.ch != nil || s.logger != nil {
+		m |= 1
+	}
+	if len(s.method) != 0 {
+		m |= 2
+	}
+	if s.sendReq || s.sendEnd {
+		m |= 4
+	}
+	if s.recvEnd || s.recvResp || s.recvFailed {
+		m |= 8
+	}
+	if s.result != nil || s.resultOK {
+		m |= 16
+	}
+	return m
+}
+
+// verifDirty returns a bitmask of what a recycled server call state still carries (0 = clean).
+func (s *serverChannelState) verifDirty() int64 {
+	var m int64
+	if s.ch != nil {
+		m |= 1
+	}
+	if len(s.method) != 0 {
+		m |= 2
+	}
+	if s.sendReq || s.sendEnd {
+		m |= 4
+	}
+	if s.recvEnd || s.recvFailed || !s.recvReq.IsEmpty() {
+		m |= 8
+	}
+	return m
+}
